@@ -1391,20 +1391,35 @@ def rule_mod_table(chk, idx):
     evc = make_evalc(idx, bm.mod, bm)
     dom = mod_domain()
 
-    def tab_period(fn, m):
-        it = _mod_interp(idx, bm, evc)
-        result = {}
-        it.call(fn, [{'s': 'S', 'e': 'E'}, 's', 'e', m, result])
-        return result
+    from ..ointerp import FuncRef, Interp, Obj, PyExc
 
-    def tab_single(fn, m):
-        it = _mod_interp(idx, bm, evc)
+    def _tab(fn, args, owner):
+        it = Interp(idx, where='C11.mod-table (BaseMergedParser.%s)' % fn.name, budget=200000)
+        selfo = Obj(bm, {'_BaseMergedParser__date_min_value': '0001-01-01', '_date_min_value': '0001-01-01'})
         result = {}
-        it.call(fn, [{'t': 'V'}, 't', m, result])
-        return result
+        try:
+            if owner is None:
+                it.call_function(FuncRef(bm.mod, fn, None), [selfo] + args + [result], {})
+            else:
+                it.call_function(FuncRef(bm.mod, fn, owner), args + [result], {}, None, selfobj=selfo)
+        except PyExc as e:
+            return {'<raises>': str(e)}
+        out = {}
+        for k, v in result.values():
+            if not isinstance(k, str) or not (v is None or isinstance(v, str)):
+                raise AnalysisError('C11.mod-table: the emitter stores %r under %r' % (v, k))
+            out[k] = v
+        return out
+
+    def tab_period(fn, m, owner=bm):
+        return _tab(fn, [{'s': ('s', 'S'), 'e': ('e', 'E')}, 's', 'e', m], owner)
+
+    def tab_single(fn, m, owner=bm):
+        return _tab(fn, [{'t': ('t', 'V')}, 't', m], owner)
 
     ctl = ast.parse(MODTABLE_CONTROL).body[0]
-    chk.control(rid, tab_period(ctl, 'after-start') != ref_period('after-start') and tab_period(ctl, 'before-end') == ref_period('before-end'))
+    chk.control(rid, tab_period(ctl, 'after-start', None) != ref_period('after-start')
+                and tab_period(ctl, 'before-end', None) == ref_period('before-end'))
     fp = bm.methods.get('__add_period_to_resolution')
     fs = bm.methods.get('__add_single_date_time_to_resolution')
     if fp is None or fs is None:
